@@ -13,7 +13,8 @@ FreshState == [collecting |-> "true", iteration |-> "[]", point |-> "[]", line_o
 Completed(s) == s.exc = "ok" /\ s.abort = 0
 JudgeSession(s) ==
   LET names == {s.expr1.facs[k].t : k \in 1..Len(s.expr1.facs)}
-      mach  == IF s.plus = 1 THEN RunAdd(OpsFrom(s.ops1, names)) ELSE Run(s.expr1, OpsFrom(s.ops1, names), s.order)
+      cfg   == [ufmt |-> {<<s.ufmt[k][1], s.ufmt[k][2]>> : k \in 1..Len(s.ufmt)}, ext |-> s.extents, nofilter |-> (s.nofilter = 1)]
+      mach  == IF s.plus = 1 THEN RunAdd(OpsFrom(s.ops1, names)) ELSE RunX(s.expr1, OpsFrom(s.ops1, names), s.order, cfg)
       exact == s.style = "tf"
   IN IF s.abort # 0 THEN <<>>
      ELSE IF s.exc # "ok" THEN <<IF s.collect = 1 THEN "P:C15:transparent" ELSE "S:kernel-exception">>      \* a kernel that runs with collection off must run with it on
